@@ -23,6 +23,7 @@ func TestC18(t *testing.T) {
 		noteCase("C18", "lockseq", p.JSON())
 		res := Guard(func() Result { return RunC18(p) })
 		rec.Case(p.JSON(), harness.HashBytes(p.JSON()), res.Counters, res.Nontrivial, res.V)
+		abortOnHang(rec, res.V)
 		if res.V != nil {
 			rt.Fatalf("C18 violated: %v", res.V)
 		}
